@@ -393,4 +393,7 @@ def run(repo, res, tier):
     label_rule(repo, res)
     common.run_traversals(repo, res, enum="RegexNode", only={"regex::do_to_dot"}, rp=False)
     balance_rule(repo, res)
+    # a dump written over an older, longer file is a well-formed graph only if the file is truncated when opened (shared with C10)
+    from . import c10
+    c10.outfile_rule(repo, res)
     res.floor("sinks", len(sinks(repo)), 4)
